@@ -880,6 +880,8 @@ def real_cta(ACT, EXP, kinds):
         err = e.error
         if type(err).__name__ != "TypeMismatchError":
             return "error:" + type(err).__name__
+        if err.kind == "argument":
+            return "check-inst:const-type"   # raised by ConstParam.check_arg inside check_inst (not modelled)
         names = [q.name for q in ACT.params]
         for c in err.children:
             if type(c).__name__ == "CantInferParam":
@@ -1148,6 +1150,14 @@ def tie(ctx):
         verdict, th, unq, fresh = oracle_cta(cexp, cact, kinds)
         ctx.count(line, nontrivial=bool(o_vars(cexp)), kind=f"cta:{real.split(' ')[0]}:oracle-{verdict}")
         bad = None
+        if real == "check-inst:const-type":
+            # check_inst (unmodelled) rejected a constant whose type is not the parameter's type (nat): legitimate only if
+            # the principal instantiation really contains such a constant
+            ok_skip = verdict == "accept" and any(th[f][0] == "cv" and th[f][1] != 0 for f in fresh if f % 2 == 1)
+            if not ok_skip:
+                ctx.violation("input:" + line, f"check_inst rejected a well-typed instantiation: check_type_against(act={sx(cact)}, exp={sx(cexp)})",
+                              {"line": line, "real": real, "oracle": verdict, "model": m_, "cta": {"exp": cexp, "act": cact, "kinds": kinds}})
+            continue
         if real.startswith("exception") or real.startswith("error:"):
             bad = f"check_type_against raised {real}"
         elif verdict == "accept" and not real.startswith("ok "):
